@@ -242,11 +242,11 @@ func (x *Exec) callFunc(fn *types.Func, recv *Value, call *ast.CallExpr, st *Sta
 	x.staticRecv = nil
 	// contracts specialised on the static (named, non-interface) type of an argument that is
 	// passed to an interface parameter: key "pkg.Func@argpkg.ArgType"
-	if sig := fn.Type().(*types.Signature); len(call.Args) == sig.Params().Len() && (!sig.Variadic() || (len(call.Args) == 1 && !call.Ellipsis.IsValid())) {
+	if sig := fn.Type().(*types.Signature); len(call.Args) == sig.Params().Len() && (!sig.Variadic() || !call.Ellipsis.IsValid()) {
 		for i, a := range call.Args {
 			pt := sig.Params().At(i).Type()
-			if sig.Variadic() {
-				pt = pt.(*types.Slice).Elem()
+			if sig.Variadic() && i == sig.Params().Len()-1 {
+				pt = pt.(*types.Slice).Elem() // exactly one value for the variadic parameter
 			}
 			if _, isIface := types.Unalias(pt).Underlying().(*types.Interface); !isIface {
 				continue
